@@ -7,7 +7,9 @@ class OpContract:
 
     def __init__(self, name, props, file, func, call, params, spec, cells=None, inv="True", requires=None,
                  raises=(), loops=None, sources=("source",), notes="", witness=None, spec_args=None,
-                 scheduler=None, known=None, elem="val", families=None):
+                 scheduler=None, known=None, elem="val", families=None, exclusive=None):
+        #: K7: per-source guard expressions of which at most one can hold (admits downstream calls outside the lock)
+        self.exclusive = exclusive
         #: handler families created per element (inner subscriptions of merge/switch/...):
         #: name -> dict(spec=(next, error, completed method names), inv=<extra invariant over the member's
         #: closure locals and the ghost id `k`>, id=<spec expression giving the member's id right after creation>)
